@@ -156,6 +156,12 @@ def textshape_oracle(run):
             texts |= {l + "\n", l + "\t", "\t" + l, l + "\u00a0", "\u00a0" + l, l + "\x00", l.replace(" ", "\u00a0"),
                       l.replace(" ", "  "), l.replace("-", "\u2013"), l.swapcase(), l.title(), l.casefold(),
                       l.replace("i", "\u0131"), l.replace("/", " / "), l.replace(" / ", "/"), l + l}
+            for sep in (" / ", "/", " - "):
+                parts = l.split(sep)
+                if len(parts) > 1:
+                    # the same phrasings in another order / repeated / one of them alone
+                    texts |= {sep.join(reversed(parts)), sep.join(parts + parts[:1]), sep.join(parts[:1] + parts), parts[0], parts[-1],
+                              sep.join(sorted(parts)), sep.join(p.strip() for p in parts), sep.strip().join(parts)}
             if l.isdigit():
                 n = int(l)
                 texts |= {"+%d" % n, "0%d" % n, "%d.0" % n, "%d_0" % n, "%de0" % n, " %d " % n, "-%d" % n, "0x%x" % n,
